@@ -14,7 +14,7 @@ def run(r):
     thorough = r.tier == 'thorough'
     drv = SignalsDriver()
     # 1. the property on the model, exhaustively within the level bound
-    r.model_check('SignalsMC', 'Signals_small.cfg')
+    r.model_check('SignalsMC', 'Signals_thorough.cfg' if thorough else 'Signals_small.cfg', timeout=5400)
     r.exhaustive = True
     # 2. every edge of the (smaller) reachable graph executed on the real classes
     g = tlc.check('SignalsMC', 'Signals_graph.cfg', 'C04/graph', dump=True)
